@@ -218,6 +218,20 @@ class LiftGen:
             insts.append(Inst(g.opv["ConstantComposite"], "ConstantComposite", tvec, rid, [Op("w", idr, m) for m in members]))
             cexp.append("Composite{0=[%s]}" % ";".join("t%d" % consts.index(m) for m in members))
             consts.append(rid)
+            # constants declared *after* a composite (declaration order is the order of the lifted constants whatever their form),
+            # a composite of a composite, and a type that refers to such a late constant
+            if rnd.random() < 0.7:
+                late = const(tuint, rnd.choice([3, 5, 9]), None)
+                cexp[-1] = "UInt{0=%d}" % insts[-1].ops[0].value
+                if rnd.random() < 0.5:
+                    const(tfloat, 0x40000000, "Float{0=%d}" % 0x40000000)
+                members = [rnd.choice(consts) for _ in range(rnd.randrange(1, 4))]
+                rid = fresh()
+                insts.append(Inst(g.opv["ConstantComposite"], "ConstantComposite", tvec, rid, [Op("w", idr, m) for m in members]))
+                cexp.append("Composite{0=[%s]}" % ";".join("t%d" % consts.index(m) for m in members))
+                consts.append(rid)
+                if rnd.random() < 0.7:
+                    ty("TypeArray", [Op("w", idr, rnd.choice(types)), Op("w", idr, late)], "arr")
         tfn = ty("TypeFunction", [Op("w", idr, tvoid)], "fn")
         env = {"types": types, "consts": consts}
         tok = {t: k for k, t in enumerate(types)}
